@@ -7,11 +7,12 @@ import re
 import shutil
 import sys
 
-SRC = "/tmp/seeded"
+SRCS = ["/tmp/seeded", "/tmp/seeded2"]
 DST = "/verif/seeded"
 
 
-ORDER = ["results.batch1.txt", "results.txt", "results.batch3.txt", "results.batch4.txt"]
+ORDER = ["/tmp/seeded/results.batch1.txt", "/tmp/seeded/results.txt", "/tmp/seeded/results.batch3.txt",
+         "/tmp/seeded/results.batch4.txt", "/tmp/seeded2/results.txt", "/tmp/seeded2/results2.txt", "/tmp/seeded2/results3.txt"]
 
 
 def parse_results(paths):
@@ -54,13 +55,16 @@ def first_para(text, header_words):
 
 
 def main():
-    results = parse_results([os.path.join(SRC, f) for f in ORDER])
+    results = parse_results(ORDER)
     rows = []
     os.makedirs(DST, exist_ok=True)
-    for prop in sorted(os.listdir(SRC)):
-        d = os.path.join(SRC, prop)
-        if not (os.path.isdir(d) and re.match(r"C\d\d$", prop)):
-            continue
+    dirs = []
+    for src in SRCS:
+        for prop in sorted(os.listdir(src)):
+            d = os.path.join(src, prop)
+            if os.path.isdir(d) and re.match(r"C\d\d$", prop):
+                dirs.append((prop, d))
+    for prop, d in sorted(dirs):
         for x in sorted(os.listdir(d)):
             sd = os.path.join(d, x)
             if not os.path.isfile(os.path.join(sd, "patch.diff")):
@@ -113,10 +117,32 @@ def main():
             }
             json.dump(meta, open(os.path.join(out, "meta.json"), "w"), indent=1)
             rows.append((sid, confirm.get("confirmed"), caught, missed, strengthened, meta["needs_to_manifest"][:160]))
-    print("| seeded change | confirmed | detected by | missed by | detected only after strengthening | needs |")
-    print("|---|---|---|---|---|---|")
-    for r in rows:
-        print(f"| {r[0]} | {r[1]} | {', '.join(r[2]) or '-'} | {', '.join(r[3]) or '-'} | {', '.join(r[4]) or '-'} | {r[5]} |")
+    print(design_table())
+
+
+def design_table():
+    """Markdown table for DESIGN.md section 12.1, from the meta.json files."""
+    rows = []
+    for d in sorted(os.listdir(DST)):
+        mp = os.path.join(DST, d, "meta.json")
+        if not os.path.exists(mp):
+            continue
+        m = json.load(open(mp))
+        notes = os.path.join(DST, d, "notes.md")
+        title = open(notes).readline().strip().lstrip("# ") if os.path.exists(notes) else ""
+        title = re.sub(r"^C\d\d\s*/\s*(change\s*)?[ABC]\s*[-:]\s*", "", title)
+        files = [l[6:].strip() for l in open(os.path.join(DST, d, "patch.diff")) if l.startswith("+++ b/")]
+        sig = {}
+        for k, v in m["checks_run_against_it"].items():
+            if v and v[-1]["verdict"] == "DETECTED":
+                first = re.findall(r"'([^']*)'|\"([^\"]*)\"", v[-1]["sigs"])
+                sig[k] = (first[0][0] or first[0][1]) if first else ""
+        det = ", ".join(f"{k} (`{sig.get(k, '')[:70]}`)" for k in m["detected_by"])
+        st = ", ".join(m["missed_at_first_and_detected_after_strengthening"])
+        conf = "yes" if m["confirmed_in_scratch_worktree"].get("confirmed") else "NO"
+        rows.append(f"| {d} | {title} (`{', '.join(files)}`) | {conf} | {det or '-'} | {', '.join(m['missed_by']) or '-'} | {st or '-'} |")
+    return ("| id | change | confirmed | caught by (first signature) | still missed by | caught only after strengthening |\n"
+            "|---|---|---|---|---|---|\n" + "\n".join(rows))
 
 
 if __name__ == "__main__":
